@@ -521,7 +521,7 @@ def r12_enumerate(text, base_line=0):
 def r15_iter(text, base_line=0):
     """R15: `for P in E.iter() {` -> `for __ixN in 0..E.len() { let P = &E[__ixN];` (slice iterator visits elements in index order)"""
     log = []
-    pat = re.compile(r"for\s+(\w+)\s+in\s+([\w\.\[\]]+?)\.iter\(\)\s*\{")
+    pat = re.compile(r"for\s+(\w+|\([\w\s,]+\))\s+in\s+([\w\.\[\]]+?)\.iter\(\)\s*\{")
     n = 0
     while True:
         m = pat.search(text)
